@@ -282,13 +282,15 @@ char *igris_f32toa(float32_t f, char *buf, int8_t precision)
         f += (float32_t)rounders[precision];
 
     // integer part: exact below 2^64, beyond that the leading digits
-    // followed by zeros
-    while (f >= 18446744073709551616.0f)
+    // followed by zeros (scaled in double: repeated float divisions drift
+    // by several float ulps)
+    double scaled = f;
+    while (scaled >= 18446744073709551616.0)
     {
-        f /= 10.0f;
+        scaled /= 10.0;
         zeros++;
     }
-    intPart = (uint64_t)f;
+    intPart = (uint64_t)scaled;
     f = zeros ? 0 : f - intPart;
 
     if (!intPart)
